@@ -1,5 +1,5 @@
 """Which properties are claimed, at what level, and why (source of MANIFEST.json)."""
-HOOK_COMMITS = []
+HOOK_COMMITS = ["afda2b8", "88d2dc4", "acb4ee3", "8205e71", "74de000"]
 NOTES = ("Technique: model-based verification with an explicit TLA+ specification (spec/), checked with TLC, bound to the "
          "implementation by conformance checks in both directions. See DESIGN.md.")
 NOT_CLAIMED = {}
@@ -7,6 +7,7 @@ _RULES_NOTE = ("Trusted: TLC/SANY/CommunityModules; ChessRules.tla as the statem
                "inside TLC, mirror symmetry, Valid inductive); the harness projection (Board -> piece codes / FEN text). Exhaustive only "
                "within the BFS bound around the seed positions; beyond that positions are sampled by specification-driven random games "
                "and recorded engine games.")
+_UCI_NOTE = "Trusted: TLC; the isready fence for command boundaries; python tokenisation of output lines. Scripts are sampled behaviours of Uci.tla (TLC -simulate over UciGen.tla); the searcher's internal state is abstracted to 'arbitrary' in the specification."
 CHECKS = {
     "C01": dict(
         text="Chess.tla states the rules (legality = pseudo-legal and own king not attacked afterwards, independent of the engine's "
@@ -66,4 +67,37 @@ CHECKS = {
         design_ref="DESIGN.md section 5, C14",
         note="Numeric content of the evaluation is not specified. Positions sampled; bound = 16383.",
         technique="TLA+ relations; specification-generated positions evaluated by the real Evaluator; TLC trace validation"),
+    "C03": dict(
+        text="Uci.tla: CmdGo is a relation - zero or more info lines then exactly one bestmove whose move is in {Uci(m) : m in Legal(board)}, "
+             "'0000' exactly when that set is empty. TLC simulates Uci.tla into command scripts (positions incl. mate/stalemate, depth, "
+             "movetime 0.., clocks at/below the reserve in all token orders, earlier searches in the same process); the scripts run on "
+             "the real release binary; TLC validates every recorded answer against UciTrace.tla, computing Legal(board) itself.",
+        design_ref="DESIGN.md section 5, C03", note=_UCI_NOTE,
+        technique="TLA+ protocol spec; TLC-simulated scripts run on the real binary; TLC trace validation"),
+    "C04": dict(
+        text="CmdPosition(start, moves): board' = Play(start, moves), text produced by the specification (ToFEN6 with counters up to 5949, "
+             "Uci with castling as king move and promotion letters). Hook level: the projected board after every position command must "
+             "equal the specification's board (sequences of position commands, move lists up to 20+ plies, a panic is an event no action "
+             "allows). Process level: the same scripts on the real binary must survive and later bestmoves must be legal in Play(start, moves).",
+        design_ref="DESIGN.md section 5, C04", note=_UCI_NOTE,
+        technique="TLA+ protocol spec; TLC-simulated scripts through the hooked handler and the real binary; TLC trace validation"),
+    "C09": dict(
+        text="Uci.tla keeps hist = positions of the most recent position command; RepDraw(q) = q occurs at least twice in hist. TLC generates "
+             "histories with 0..3 earlier occurrences (reversible-move cycles, shuffles, truncations, several position commands, "
+             "ucinewgame); after every position command the hook asks, for every legal move, the repetition answer the search would give "
+             "at ply 1; TLC requires equality with RepDraw for every move (UciTrace.tla).",
+        design_ref="DESIGN.md section 5, C09", note=_UCI_NOTE + " The hook mirrors search_position (push root) + negamax's ply>0 query.",
+        technique="TLA+ protocol spec with game history; TLC-simulated histories; TLC trace validation of repetition answers"),
+    "C13": dict(
+        text="UciTrace.tla holds memo: (commands since the engine was fresh) -> tokenised output (time/nps removed). Each TLC-generated "
+             "script of depth-limited searches is run in three separate processes (three key draws) and once behind a table-filling "
+             "prefix + ucinewgame; all runs are validated in one trace, every go must agree with memo or extend it.",
+        design_ref="DESIGN.md section 5, C13", note=_UCI_NOTE,
+        technique="TLA+ protocol spec with output memo; repeated runs of TLC-simulated scripts on the real binary; TLC trace validation"),
+    "C16": dict(
+        text="Uci.tla: uci -> id lines then uciok; isready -> readyok; unknown / blank lines -> no output; quit and end of input -> exit "
+             "status 0. TLC simulates interleavings with position/go, ending by quit or by closing stdin; the real binary is run; "
+             "TLC validates outputs and exit status (UciTrace.tla).",
+        design_ref="DESIGN.md section 5, C16", note=_UCI_NOTE,
+        technique="TLA+ protocol spec; TLC-simulated scripts run on the real binary; TLC trace validation"),
 }
